@@ -11,6 +11,9 @@ def strip_lines(x):
         return {k: strip_lines(v) for k, v in x.items() if k not in ('line', 'lo', 'hi')}
     if isinstance(x, list):
         return [strip_lines(v) for v in x]
+    if isinstance(x, str) and 'alloc' in x:
+        import re
+        return re.sub(r'alloc\d+', 'alloc', x)
     return x
 
 
@@ -50,10 +53,26 @@ def selftest(ctx):
         cases = cases[k:] + cases[:k]
     res = {'detected': 0, 'silent': 0, 'MISSED': [], 'FALSE-ALARM': [], 'skipped': [], 'does-not-compile': []}
     samples = []
-    for c in cases:
-        c1 = dict(c, props=[ctx.prop])
-        r = st.run_case(c1, tag=f'st-{ctx.prop}')
-        verdict, why = st.judge(c1, r)
+    from concurrent.futures import ThreadPoolExecutor
+    import threading
+    nworkers = min(4, max(1, len(cases)))
+    core.build_driver()
+    slots = list(range(nworkers))
+    slot_lock = threading.Lock()
+
+    def one(c):
+        with slot_lock:
+            i = slots.pop()
+        try:
+            c1 = dict(c, props=[ctx.prop])
+            r = st.run_case(c1, tag=f'st-{ctx.prop}-{i}', target=st.worker_target(i))
+            return c, r, st.judge(c1, r)
+        finally:
+            with slot_lock:
+                slots.append(i)
+    with ThreadPoolExecutor(nworkers) as ex:
+        outs = list(ex.map(one, cases))
+    for c, r, (verdict, why) in outs:
         if verdict in ('detected', 'silent'):
             res[verdict] += 1
             if len(samples) < 4:
